@@ -24,7 +24,7 @@ type vfC10Case struct {
 	Runs   []vfRunPlan `json:"runs"` // every run but the last carries a Stop; the last one runs to completion
 }
 
-var vfStopPoints = []string{"A.iter", "A.window", "A.dataSynced", "A.ckptSynced", "A.final", "B.iter", "B.window", "B.dataSynced", "B.ckptSynced", "B.final", "beforeRemoveA"}
+var vfStopPoints = []string{"A.iter", "A.window", "A.scanned", "B.scanned", "A.dataSynced", "A.ckptSynced", "A.final", "B.iter", "B.window", "B.dataSynced", "B.ckptSynced", "B.final", "beforeRemoveA"}
 
 // vfJudgeInterrupted inspects a space after an interruption (files closed): it must open, must not claim to be
 // plotted unless its table is complete, and recorded progress must not be ahead of the data.
